@@ -19,7 +19,7 @@ use std::time::Duration;
 async fn run(mut sim: Sim, _seed: u64) -> Result<Value, String> {
     let n = 3;
     let keys = sim::sorted_keys(n, &mut sim.rng);
-    let idle_wait = [50u64, 300, 1_000, 4_000][sim.rng.gen_range(0..4)];
+    let idle_wait = [0u64, 50, 300, 1_000, 4_000][sim.rng.gen_range(0..5)];
     for k in keys {
         let mut config = base_config();
         config.shutdown_idle_timeout_ms = Some(idle_wait);
